@@ -57,7 +57,10 @@ type Ctx struct {
 	quiet      bool // shrinking / second run: do not record stats
 	scratch    string
 	narrow     []interface{} // smaller specs proposed by the run itself (tried first when minimising)
+	vspec      interface{}   // spec attached to violations raised outside an episode (parent-side work)
 }
+
+func nowS() float64 { return float64(time.Now().UnixNano()) / 1e9 }
 
 // Narrow proposes a smaller spec that should still show the violation just reported.
 func (c *Ctx) Narrow(spec interface{}) { c.narrow = append(c.narrow, spec) }
@@ -117,7 +120,11 @@ func (c *Ctx) Violate(class, key, format string, a ...interface{}) {
 	if key == "" {
 		key = class
 	}
-	c.violations = append(c.violations, Violation{Property: c.property, Class: class, Key: key, Detail: fmt.Sprintf(format, a...), Seed: c.seed})
+	v := Violation{Property: c.property, Class: class, Key: key, Detail: fmt.Sprintf(format, a...), Seed: c.seed}
+	if c.vspec != nil {
+		v.Spec, _ = json.Marshal(c.vspec)
+	}
+	c.violations = append(c.violations, v)
 }
 
 func (c *Ctx) Trouble(format string, a ...interface{}) {
@@ -133,6 +140,7 @@ type CheckDef struct {
 	Episodes    map[string]int
 	TwiceEvery  int // run every k-th episode twice and compare transcripts (0: never)
 	Gen         func(seed uint64, tier string) interface{}
+	GenI        func(seed uint64, tier string, i int) interface{} // optional: generation that also sees the episode number
 	Run         func(c *Ctx, spec interface{})
 	Decode      func(raw []byte) (interface{}, error)
 	Shrink      func(spec interface{}) []interface{}
@@ -321,13 +329,24 @@ func workerMain(def *CheckDef, tier string, w, W int, out string) int {
 	}
 	installSimulator()
 	installOrderHooks()
+	defer func() {
+		if r := recover(); r != nil {
+			diag("worker %d: harness panic outside an episode: %v\n%s", w, r, stack())
+			os.Exit(2)
+		}
+	}()
 	seed := tierSeed(tier)
 	st := newStats()
 	n := def.Episodes[tier]
 	maxViol := 3
 	for i := w; i < n; i += W {
 		eseed := mix(seed, def.ID, i)
-		spec := def.Gen(eseed, tier)
+		var spec interface{}
+		if def.GenI != nil {
+			spec = def.GenI(eseed, tier, i)
+		} else {
+			spec = def.Gen(eseed, tier)
+		}
 		vs, tr1, trouble := runSpec(def, st, tier, eseed, spec, false, scratch)
 		st.Episodes++
 		if trouble != "" {
